@@ -90,3 +90,65 @@ mod test {
         assert_eq!((2, 4), RayonJoin::join(oper_a, oper_b));
     }
 }
+
+// Verification hook (off unless built with --cfg blake3_team_blake3_verif): a `Join` whose
+// execution order is chosen per split by a script: 0 = left then right on the calling thread,
+// 1 = right then left on the calling thread, 2 = right half on a freshly spawned thread while the
+// left half runs on the calling thread. The script is consumed cyclically; an empty script means
+// left-first everywhere.
+#[cfg(blake3_team_blake3_verif)]
+pub enum ScriptedJoin {}
+
+#[cfg(blake3_team_blake3_verif)]
+static VERIF_JOIN_SCRIPT: std::sync::Mutex<(std::vec::Vec<u8>, usize, usize)> =
+    std::sync::Mutex::new((std::vec::Vec::new(), 0, 0));
+
+#[cfg(blake3_team_blake3_verif)]
+pub fn verif_set_join_script(script: &[u8]) {
+    let mut g = VERIF_JOIN_SCRIPT.lock().unwrap();
+    g.0 = script.to_vec();
+    g.1 = 0;
+    g.2 = 0;
+}
+
+/// Number of joins executed since the script was last set.
+#[cfg(blake3_team_blake3_verif)]
+pub fn verif_join_count() -> usize {
+    VERIF_JOIN_SCRIPT.lock().unwrap().2
+}
+
+#[cfg(blake3_team_blake3_verif)]
+impl Join for ScriptedJoin {
+    fn join<A, B, RA, RB>(oper_a: A, oper_b: B) -> (RA, RB)
+    where
+        A: FnOnce() -> RA + Send,
+        B: FnOnce() -> RB + Send,
+        RA: Send,
+        RB: Send,
+    {
+        let choice = {
+            let mut g = VERIF_JOIN_SCRIPT.lock().unwrap();
+            g.2 += 1;
+            if g.0.is_empty() {
+                0
+            } else {
+                let i = g.1 % g.0.len();
+                g.1 += 1;
+                g.0[i]
+            }
+        };
+        match choice {
+            1 => {
+                let b = oper_b();
+                let a = oper_a();
+                (a, b)
+            }
+            2 => std::thread::scope(|s| {
+                let hb = s.spawn(oper_b);
+                let a = oper_a();
+                (a, hb.join().unwrap())
+            }),
+            _ => (oper_a(), oper_b()),
+        }
+    }
+}
